@@ -146,7 +146,7 @@ fn hash_case(cfg: &str, shape: Shape, picks: &[u32]) -> u64 {
 }
 
 fn account(stats: &mut Stats, task: &Task, out: &CaseOut, picks: &[u32], trace: &str) {
-    stats.evaluations += 1;
+    stats.evaluations += 1 + out.extra_evals as u64;
     *stats.per_config.entry(task.entry.name.to_string()).or_default() += 1;
     stats.avoided += out.avoided as u64;
     if out.nontrivial {
